@@ -583,7 +583,7 @@ func runPerco(c *corr.Ctx) error {
 		ex := exhaustiveCases(depth)
 		descs = append(descs, ex...)
 		c.CountN("exhaustive_cases", len(ex))
-		n := c.Scale(700, 20000)
+		n := c.Scale(700, 12000)
 		for i := 0; i < n; i++ {
 			descs = append(descs, genInterleaved(c))
 		}
